@@ -25,6 +25,25 @@ class Ctx:
         self.fns_touched = set()
         self.rule_counts = {}
 
+    # -- rules of another property that this property depends on
+    def import_rules(self, other_pid, inst_rx):
+        """evaluate the rule instances of property `other_pid` whose instance name matches inst_rx as obligations of THIS property
+        (a property that is built on a mechanism another property owns: C07's disconnect permit travels through the Semphore
+        hand-off that C10 specifies, C08's timers sit in the list that C19 specifies, ...)"""
+        import importlib
+        if getattr(self, "_importing", False): return
+        mod = importlib.import_module("props." + other_pid)
+        sub = Ctx(self.prop, self.prog, self.cfg, self.tier)
+        sub.an = self.an; sub._importing = True
+        mod.check(sub)
+        rx = re.compile(inst_rx)
+        have = set((o.rule, o.item, o.inst) for o in self.obs)
+        for o in sub.obs:
+            if rx.search(o.inst) and (o.rule, o.item, o.inst) not in have:
+                self.obs.append(o)
+                self.rule_counts[o.rule] = self.rule_counts.get(o.rule, 0) + 1
+        self.fns_touched |= sub.fns_touched
+
     # -- recording
     def ob(self, rule, item, inst, ok, msg, site=None, nontrivial=True, detail=None, missing=False):
         status = "anchor-missing" if missing else ("discharged" if ok else "violated")
